@@ -39,6 +39,7 @@ type gEndpoint struct {
 	Host   string
 	Port   int
 	Weight int
+	Kind   string // "" = socket address; "pipe" | "internal" | "none": decodes as host "" port 0
 }
 
 type gCLA struct {
@@ -55,11 +56,21 @@ func (a *gCLA) proto() *v3endpointpb.ClusterLoadAssignment {
 		// priorities in no particular order: the decoder keeps the localities in MESSAGE order (it does not read the priority)
 		l := &v3endpointpb.LocalityLbEndpoints{Priority: uint32((7*li + 3) % 5)}
 		for _, e := range loc {
+			addr := &v3core.Address{Address: &v3core.Address_SocketAddress{SocketAddress: &v3core.SocketAddress{
+				Address: e.Host, PortSpecifier: &v3core.SocketAddress_PortValue{PortValue: uint32(e.Port)}}}}
+			// an endpoint whose address is not a socket address (a pipe, an Envoy-internal listener, none at all): it decodes
+			// as the empty host and port 0 - and neither the decoder nor the resolver falls over it
+			switch e.Kind {
+			case "pipe":
+				addr = &v3core.Address{Address: &v3core.Address_Pipe{Pipe: &v3core.Pipe{Path: "/var/run/x.sock"}}}
+			case "internal":
+				addr = &v3core.Address{Address: &v3core.Address_EnvoyInternalAddress{EnvoyInternalAddress: &v3core.EnvoyInternalAddress{
+					AddressNameSpecifier: &v3core.EnvoyInternalAddress_ServerListenerName{ServerListenerName: "inner"}}}}
+			case "none":
+				addr = nil
+			}
 			l.LbEndpoints = append(l.LbEndpoints, &v3endpointpb.LbEndpoint{
-				HostIdentifier: &v3endpointpb.LbEndpoint_Endpoint{Endpoint: &v3endpointpb.Endpoint{
-					Address: &v3core.Address{Address: &v3core.Address_SocketAddress{SocketAddress: &v3core.SocketAddress{
-						Address: e.Host, PortSpecifier: &v3core.SocketAddress_PortValue{PortValue: uint32(e.Port)}}}},
-				}},
+				HostIdentifier:      &v3endpointpb.LbEndpoint_Endpoint{Endpoint: &v3endpointpb.Endpoint{Address: addr}},
 				LoadBalancingWeight: wrapperspb.UInt32(uint32(e.Weight)),
 			})
 		}
@@ -123,7 +134,11 @@ func genCLA(r *rng, name string) *gCLA {
 			if r.chance(20) {
 				host = fmt.Sprintf("fd00::%d:%d", i, j+1)
 			}
-			loc = append(loc, gEndpoint{host, []int{80, 8888, 0, 65535}[r.intn(4)], []int{0, 1, 5, 100, 1 << 20}[r.intn(5)]})
+			ep := gEndpoint{Host: host, Port: []int{80, 8888, 0, 65535}[r.intn(4)], Weight: []int{0, 1, 5, 100, 1 << 20}[r.intn(5)]}
+			if r.chance(6) {
+				ep.Kind, ep.Host, ep.Port = r.pick([]string{"pipe", "internal", "none"}), "", 0
+			}
+			loc = append(loc, ep)
 		}
 		a.Localities = append(a.Localities, loc)
 	}
@@ -247,7 +262,7 @@ func c10History(c *ctx) {
 		for i := 0; i < nl; i++ {
 			var loc []gEndpoint
 			for j := 0; j < 1+r.intn(3); j++ {
-				loc = append(loc, gEndpoint{fmt.Sprintf("10.%d.%d.%d", tag, i, j+1), 8080, 1 + r.intn(5)})
+				loc = append(loc, gEndpoint{Host: fmt.Sprintf("10.%d.%d.%d", tag, i, j+1), Port: 8080, Weight: 1 + r.intn(5)})
 			}
 			a.Localities = append(a.Localities, loc)
 		}
